@@ -221,7 +221,7 @@ def _worker(a):
                     moddir, ", ".join(nm_[u] if isinstance(u, int) else u for u in case["listing"])))
             if os.path.exists(log):
                 os.unlink(log)
-            env = hrun.san_env(leaks=False, extra={"VERIF_MODGRAPH": case["genv"], "VERIF_MODLOG": log})
+            env = hrun.san_env(leaks=False, extra=dict({"VERIF_MODGRAPH": case["genv"], "VERIF_MODLOG": log}, **({"VERIF_MODSLOW": case["slow"]} if case.get("slow") else {})))
             try:
                 p = subprocess.run([exe, "-k", "-n", "-f", conf], stdin=subprocess.DEVNULL, stdout=subprocess.PIPE,
                                    stderr=subprocess.PIPE, env=env, cwd=scratch, timeout=60)
@@ -278,6 +278,9 @@ def gen_cases(tier, seed, scale):
             edges = [(perm[i], perm[j]) for i in range(n) for j in range(i + 1, n) if rng.random() < dens]
             lst = rng.choice(listings_for(edges, n, rng, 6))
             cases.append({"kind": "dag", "n": n, "edges": edges, "listing": list(lst), "genv": graph_env(edges, rng)})
+            if rng.random() < 0.12:
+                # unloading takes its time: one or two destructors need 12-40 ms each (the order still has to hold)
+                cases[-1]["slow"] = ";".join("%s:%d" % (NAMES[u], rng.choice([12, 20, 40])) for u in rng.sample(range(n), rng.choice([1, 2])))
     # dependencies declared from the provider's side (module_antidepends, README): DAGs in which a random non-empty subset of the
     # edges is declared that way; every module is listed so that what gets loaded does not depend on who pulls in whom
     for _ in range(int((400 if tier == "quick" else 6000) * scale)):
@@ -291,6 +294,9 @@ def gen_cases(tier, seed, scale):
         anti = [e for e in edges if rng.random() < 0.5] or [rng.choice(edges)]
         lst = list(range(n))
         rng.shuffle(lst)
+        if rng.random() < 0.4:
+            # only some are listed: a back end may then be what pulls its front end in
+            lst = lst[:rng.randint(1, n - 1)]
         cases.append({"kind": "anti", "n": n, "edges": edges, "anti": anti, "listing": lst, "genv": graph_env(edges, rng, anti=anti)})
     # modules without a constructor (it is optional): leaves that others depend on, pulled in by module_depends or listed themselves
     for _ in range(int((300 if tier == "quick" else 4000) * scale)):
@@ -421,6 +427,8 @@ def run(chk, tier, scale=1.0):
                 chk.count("runs_with_constructorless_modules")
             if case.get("nopost"):
                 chk.count("runs_with_hookless_modules")
+            if case.get("slow"):
+                chk.count("runs_with_slow_destructors")
             if case["n"] >= 200:
                 chk.count("runs_with_hundreds_of_modules")
             chk.add_case(vcommon.h(key + (tuple(map(tuple, case.get("anti", ()))),)), nev > 0 or case["kind"] not in ("dag", "anti", "dag2"))
